@@ -308,7 +308,10 @@ class OnlineVariance(object):
                     squares = cnt*(average - avg)**2
                 else:
                     squares += cnt*(average - avg)**2
-            if var is not np.nan:
+            # A rank holding fewer than two samples reports a scalar NaN
+            # variance. Test the value, not identity: the NaN that comes back
+            # from an MPI gather is not the np.nan object.
+            if not (np.ndim(var) == 0 and np.isnan(var)):
                 squares += cnt*var 
         # squares = counts*variances
         # squares += counts*(average - averages)**2
